@@ -423,7 +423,7 @@ func oracleDescJSON(op *Sexp, res string) []string {
 }
 
 func runC13(r *Runner, g *Gen, tier string) string {
-	n := scale(tier, 3000, 150000)
+	n := scale(tier, 3000, 400000)
 	for i := 0; i < n; i++ {
 		// proto-compatible times (F06) and the protobuf repeated forms (F08) are
 		// known findings of descriptor-driven decoding: default mode, no proto tags
